@@ -275,6 +275,7 @@ class W(object):
         self.c = R.ep_new()
         self.k = R.bn_new()
         self.m = R.bn_new()
+        self.s = None           # slope output of ep_add_slp_basic / ep_dbl_slp_basic (allocated after the field set-up)
         t = R.target("ep_add")
         self.native = self.sysof.get(t.rsplit("_", 1)[-1], self.BASIC)
         ctx.note("dispatch", {n: R.target(n) for n in ("ep_add", "ep_dbl", "ep_mul", "ep_mul_pre", "ep_mul_fix",
@@ -384,6 +385,36 @@ class W(object):
         if affine:
             ctx.check(z == 0 or (co == self.BASIC and z == 1), key + "|normal-form", {"coord": co, "z": hx(z)})
         return ok
+
+    # slope-returning affine routines (ep_add_slp_basic / ep_dbl_slp_basic)
+    def slope_arm(self):
+        """fill the slope output with a per-case random raw pattern; returns it (an untouched output is recognised)"""
+        R = self.R
+        if self.s is None:
+            self.s = R.fp_new()
+        sent = self.crng.getrandbits(8 * R.FP_DIGS * R.DB) | 1
+        R.fp_put_raw(self.s, sent)
+        return sent
+
+    def verdict_slope(self, cv, P, Q, sent):
+        """P, Q finite with a finite sum: the returned slope is the model's chord slope (y2 - y1)/(x2 - x1), for
+        P = Q the tangent slope (3 x^2 + a)/(2 y), as a canonical field element"""
+        ctx, R, p = self.ctx, self.R, cv.p
+        key = ctx.cur_key
+        x1, y1 = P
+        x2, y2 = Q
+        if (x1 - x2) % p == 0:
+            lam = (3 * x1 * x1 + cv.a) * pow(2 * y1 % p, -1, p) % p
+            what = "tangent"
+        else:
+            lam = (y2 - y1) * pow((x2 - x1) % p, -1, p) % p
+            what = "chord"
+        if R.fp_raw(self.s) == sent:
+            ctx.check(False, key + "|slope-not-written", {"exp": hx(lam), "slope": what})
+            return
+        got, can = R.fp_get(self.s)
+        ctx.check(got == lam, key + "|slope", {"got": hx(got), "exp": hx(lam), "slope": what})
+        ctx.check(can, key + "|slope-non-canonical", {"raw": hx(R.fp_raw(self.s))})
 
     def unchanged(self, ptr, before, n=1, what="|input-modified"):
         self.ctx.check(self.snap(ptr, n) == before, self.ctx.cur_key + what)
@@ -550,6 +581,7 @@ class W(object):
             return
         P, Q = pq
         sub = fn == "ep_sub"
+        slp = fn == "ep_add_slp_basic"
         if sub:
             # the relation class of ep_sub(P, Q) is that of the operands of the addition it performs, (P, -Q)
             Q = C.neg(Q)
@@ -583,12 +615,19 @@ class W(object):
                 self.scrub(c)
             sa = self.snap(a)
             sb = self.snap(b)
-            res = R.call(fn, out, pa, pb)
+            if slp:
+                sent = self.slope_arm()
+                res = R.call(fn, out, self.s, pa, pb)
+            else:
+                res = R.call(fn, out, pa, pb)
             exp = C.sub(P, Q) if sub else C.add(P, Q)
             if res.caught:
                 ctx.check(False, key + "|unexpected-error", {"err": res.err})
                 return
             self.verdict_point(cv, out, exp)
+            if slp and P is not None and Q is not None and exp is not None:
+                # identity operand / P = -Q: only the point is judged, the slope is unspecified
+                self.verdict_slope(cv, P, Q, sent)
             if out != a:
                 self.unchanged(a, sa)
             if out != b and pb == b:
@@ -621,7 +660,12 @@ class W(object):
             if not alias:
                 self.scrub(c)
             sa = self.snap(a)
-            res = R.call(fn, out, a)
+            slp = fn == "ep_dbl_slp_basic"
+            if slp:
+                sent = self.slope_arm()
+                res = R.call(fn, out, self.s, a)
+            else:
+                res = R.call(fn, out, a)
             if res.caught:
                 ctx.check(False, key + "|unexpected-error", {"err": res.err})
                 return
@@ -634,6 +678,9 @@ class W(object):
             else:  # ep_psi: multiplication by the eigenvalue on the subgroup (model)
                 exp = C.mul(cv.lam, P)
             self.verdict_point(cv, out, exp, affine=(fn == "ep_norm"))
+            if slp and P is not None and exp is not None:
+                # identity / point of order two: only the point is judged, the slope is unspecified
+                self.verdict_slope(cv, P, P, sent)
             if not alias:
                 self.unchanged(a, sa)
         except MonitorViolation as e:
@@ -885,6 +932,30 @@ class W(object):
             else:
                 self.law_norm_sim(cv, rng.choice([1, 2, 3, 5, 9, 17]), rng.random() < 0.5, rng.random() < 0.3,
                                   rng.choice(["B", "P", "J", "mix"]))
+        # ---- affine addition / doubling that also return the slope (a block of its own after the others, so the
+        # cases above are the same with and without it): every relation x alias pattern once, then sampled
+        has_as, has_ds = self.has("ep_add_slp_basic"), self.has("ep_dbl_slp_basic")
+        if has_as:
+            for rel in rels:
+                for alias in (0, 1, 2, 3, 4):
+                    if alias >= 3 and rel not in ("eq", "OO", "eq2", "ord3"):
+                        continue
+                    if mine():
+                        self.law_add(cv, "ep_add_slp_basic", B, rel, B, B, alias)
+        if has_ds:
+            for alias in (0, 1):
+                for sp in specials:
+                    if mine():
+                        P = self.pick_point(cv, False) if sp == "rand" else sp
+                        if sp is None or P is not None:
+                            self.law_unary(cv, "ep_dbl_slp_basic", B, alias, P)
+        for it in range(ctx.n(1000, 20000)):
+            if has_as and (rng.randrange(10) < 7 or not has_ds):
+                alias = rng.choice([0, 0, 1, 1, 2, 2, 3, 4])
+                self.law_add(cv, "ep_add_slp_basic", B,
+                             rng.choice(relw) if alias < 3 else rng.choice(["eq", "OO", "eq2", "ord3"]), B, B, alias)
+            elif has_ds:
+                self.law_unary(cv, "ep_dbl_slp_basic", B, rng.randrange(2), self.pick_point(cv))
 
     # =================================================================== scalars
     def directed_scalars(self, cv):
@@ -1560,7 +1631,8 @@ def run(ctx, part):
     ctx.add("cases_stepped_around_confined_known_fatal", w.skipped_confined)
 
 
-SCOPE = ["ep_neg", "ep_add_basic", "ep_add_projc", "ep_add_jacob", "ep_sub", "ep_dbl_basic", "ep_dbl_projc", "ep_dbl_jacob",
+SCOPE = ["ep_neg", "ep_add_basic", "ep_add_slp_basic", "ep_add_projc", "ep_add_jacob", "ep_sub", "ep_dbl_basic",
+         "ep_dbl_slp_basic", "ep_dbl_projc", "ep_dbl_jacob",
          "ep_norm", "ep_norm_sim", "ep_cmp", "ep_on_curve", "ep_psi", "ep_mul_basic", "ep_mul_slide", "ep_mul_monty",
          "ep_mul_lwnaf", "ep_mul_lwreg", "ep_mul_gen", "ep_mul_dig", "ep_mul_cof", "ep_mul_pre_basic", "ep_mul_pre_yaowi",
          "ep_mul_pre_nafwi", "ep_mul_pre_combs", "ep_mul_pre_combd", "ep_mul_pre_lwnaf", "ep_mul_fix_basic",
